@@ -2,16 +2,17 @@
 # usage: benign_eval.sh <patch>... — apply each behaviour-preserving patch to a scratch copy of /repo and run every check; print any alarm
 export GOFLAGS=-mod=mod GOPROXY=off GOSUMDB=off GOTOOLCHAIN=local; unset GOWORK
 props=$(python3 -c "import json;print(' '.join(c['property_id'] for c in json.load(open('/verif/MANIFEST.json'))['checks']))")
+T=$(mktemp -d /tmp/ben.XXXXXX)
 for patch in "$@"; do
-  rm -rf /tmp/ben && mkdir -p /tmp/ben/verif && rsync -a --exclude .git /repo/ /tmp/ben/repo/ && cp /verif/known-findings.json /tmp/ben/verif/
-  if ! patch -p1 -s -f -d /tmp/ben/repo -i $patch >/dev/null 2>&1; then echo "$patch: DOES NOT APPLY"; continue; fi
-  (cd /tmp/ben/repo && go build ./... 2>&1 | head -3)
+  rm -rf $T && mkdir -p $T/verif && rsync -a --exclude .git /repo/ $T/repo/ && cp /verif/known-findings.json $T/verif/
+  if ! patch -p1 -s -f -d $T/repo -i $patch >/dev/null 2>&1; then echo "$patch: DOES NOT APPLY"; continue; fi
+  (cd $T/repo && go build ./... 2>&1 | head -3)
   alarms=""
   for p in $props; do
-    DSTVERIF_REPO=/tmp/ben/repo DSTVERIF_DIR=/tmp/ben/verif /verif/bin/dstverif -prop $p > /tmp/ben/$p.log 2>&1; rc=$?
+    DSTVERIF_REPO=$T/repo DSTVERIF_DIR=$T/verif /verif/bin/dstverif -prop $p > $T/$p.log 2>&1; rc=$?
     if [ $rc -ne 0 ]; then alarms="$alarms $p(rc=$rc)"; fi
   done
   echo "== $patch:${alarms:- silent}"
-  for p in $props; do grep -h -A1 "^VIOLATION\|^UNDECIDED\|PANIC\|LOAD-FAILED" /tmp/ben/$p.log 2>/dev/null | grep "rule=\|UNDECIDED\|PANIC\|LOAD" | cut -c1-230 | sort -u | head -4; done | sort -u | head -12
+  for p in $props; do grep -h -A1 "^VIOLATION\|^UNDECIDED\|PANIC\|LOAD-FAILED" $T/$p.log 2>/dev/null | grep "rule=\|UNDECIDED\|PANIC\|LOAD" | cut -c1-230 | sort -u | head -4; done | sort -u | head -12
 done
-rm -rf /tmp/ben
+rm -rf $T
